@@ -276,13 +276,13 @@ class Oracle:
                     else:
                         amt, d = m[2][0]
                         if amt <= 0:
-                            bad = "bank send of a zero coin"
+                            bad = "bank send of a zero coin" if not (self.migration or self.seeded) else None
                         elif self.restricted(d):
                             bad = "bank send of restricted marker %s" % d
                 elif m[0] == "xfer":
                     amt, d = m[3]
                     if amt <= 0:
-                        bad = "zero marker transfer"
+                        bad = "zero marker transfer" if not (self.migration or self.seeded) else None
                     elif not self.restricted(d):
                         bad = "marker transfer of unrestricted %s" % d
                     elif m[4] != SELF:
